@@ -85,7 +85,7 @@ func (s *KeyStore) importKeyRing(newRingData *asn1.KeyRing, delegate api.KeyRing
 		case api.ImportOverwrite:
 			// Forget whatever we just read and import into a clean key ring.
 			keyRing = newKeyRing(s, string(newRingData.Purpose))
-			err := keyRing.importASN1(newRingData)
+			err := keyRing.importASN1(newRingData, false)
 			if err != nil {
 				return err
 			}
@@ -102,7 +102,10 @@ func (s *KeyStore) importKeyRing(newRingData *asn1.KeyRing, delegate api.KeyRing
 		if err != nil {
 			return err
 		}
-		err = keyRing.importASN1(newRingData)
+		// The delegate has not been asked about this key ring because it did not exist.
+		// Other writers may create and fill it before we take the store lock again,
+		// so import only into a key ring that is still empty at that moment.
+		err = keyRing.importASN1(newRingData, true)
 		if err != nil {
 			return err
 		}
@@ -200,7 +203,7 @@ func (r *KeyRing) exportASN1(mode keystoreV1.ExportMode) (exported asn1.KeyRing,
 	return exported, nil
 }
 
-func (r *KeyRing) importASN1(ringData *asn1.KeyRing) error {
+func (r *KeyRing) importASN1(ringData *asn1.KeyRing, expectEmpty bool) error {
 	// Make properly encrypted copies of key data.
 	newKeys := make([]asn1.Key, len(ringData.Keys))
 	for i := range ringData.Keys {
@@ -210,7 +213,7 @@ func (r *KeyRing) importASN1(ringData *asn1.KeyRing) error {
 		}
 		newKeys[i] = *newKey
 	}
-	r.pushTX(&txSetKeys{newKeys: newKeys, current: ringData.Current})
+	r.pushTX(&txSetKeys{newKeys: newKeys, current: ringData.Current, expectEmpty: expectEmpty})
 	err := r.store.syncKeyRing(r)
 	if err != nil {
 		r.popTX()
